@@ -2,6 +2,7 @@ package main
 
 import (
 	"encoding/json"
+	"math"
 	"fmt"
 	"reflect"
 
@@ -502,6 +503,7 @@ func init() {
 			cs = append(cs, Case{ID: "regex-trees", Run: func() CaseResult { return c25Regex(tier) }})
 			cs = append(cs, Case{ID: "prefilter-trees", Run: func() CaseResult { return c25Prefilter(tier) }})
 			cs = append(cs, Case{ID: "builders", Run: c25Builders})
+			cs = append(cs, Case{ID: "json-operands", Run: c25Operands})
 			for s := 0; s < sh; s++ {
 				s := s
 				cs = append(cs, Case{ID: fmt.Sprintf("shared-bloom/%d", s), Run: func() CaseResult { return c25ShareBloom(tier, s, sh) }})
@@ -511,6 +513,85 @@ func init() {
 			cs = append(cs, Case{ID: "special-nodes", Run: func() CaseResult { return treeCase(sweepOpts{c01: true, c02: true}) }})
 			return cs
 		},
-		Rule: "all nested AND/OR combinations (depth <= 2 quick / 3 thorough, <= 3 children) over 4 bloom, 3 regex and 4 prefilter leaves, each built bottom-up through the public constructors (so flattening runs) and evaluated by the real engine on a 16-row truth-table corpus against the nested combination as written; every tree and Query is marshalled, unmarshalled, compared structurally and re-run; builder chains of length <= 4 in the documented forms; nil/empty/unknown nodes via the special-node tree set; construction histories of <= 2 (quick) / 3 (thorough) steps over a pool seeded with one shared base expression (constructors, builder chains after Match, AndBloomQueries applied to any pool member): the new object must mean what was written and every object built earlier must keep its serialised form; non-trivial = the tree separates the corpus",
+		Rule: "all nested AND/OR combinations (depth <= 2 quick / 3 thorough, <= 3 children) over 4 bloom, 3 regex and 4 prefilter leaves, each built bottom-up through the public constructors (so flattening runs) and evaluated by the real engine on a 16-row truth-table corpus against the nested combination as written; every tree and Query is marshalled, unmarshalled, compared structurally and re-run; builder chains of length <= 4 in the documented forms; every numeric / partition operator with operands at 0, +-1, around 2^53, nanosecond timestamps and the int64 extremes (strings with escapes, control and non-ASCII characters) round-tripped through JSON: deep equality and identical evaluation on blocks around every operand; nil/empty/unknown nodes via the special-node tree set; construction histories of <= 2 (quick) / 3 (thorough) steps over a pool seeded with one shared base expression (constructors, builder chains after Match, AndBloomQueries applied to any pool member): the new object must mean what was written and every object built earlier must keep its serialised form; non-trivial = the tree separates the corpus",
 	}
+}
+
+// c25Operands: JSON round trip of prefilter conditions over boundary operands (beyond 2^53,
+// at the int64 extremes, strings with escapes): the decoded expression must be deeply equal
+// to the original and evaluate identically on blocks around every operand.
+func c25Operands() CaseResult {
+	var res CaseResult
+	nums := []int64{0, 1, -1, 1<<53 - 1, 1 << 53, 1<<53 + 1, -(1<<53 + 1), 1<<60 + 1, 1700000000123456789, math.MaxInt64, math.MaxInt64 - 1, math.MinInt64, math.MinInt64 + 1}
+	var conds []bs.NumericCondition
+	for _, v := range nums {
+		conds = append(conds, bs.NumericEquals(v), bs.NumericNotEquals(v), bs.NumericGreaterThan(v), bs.NumericGreaterThanEqual(v), bs.NumericLessThan(v), bs.NumericLessThanEqual(v),
+			bs.NumericIn(v, 7), bs.NumericNotIn(v), bs.NumericBetween(v-1, v), bs.NumericNotBetween(v, v))
+	}
+	for i := range nums {
+		for j := range nums {
+			if nums[i] <= nums[j] {
+				conds = append(conds, bs.NumericBetween(nums[i], nums[j]))
+			}
+		}
+	}
+	strs := []string{"", "pa", "p\"q", "p\\u00e9", "é", "a\nb", "\x00", "<>&"}
+	var exprs []bs.PrefilterExpression
+	for _, c := range conds {
+		exprs = append(exprs, bs.MinMax("n", c), bs.PrefilterAnd(bs.Partition(bs.PartitionEquals("pa")), bs.MinMax("n", c)), bs.PrefilterOr(bs.MinMax("m", bs.NumericLessThan(3)), bs.MinMax("n", c)))
+	}
+	for _, s := range strs {
+		exprs = append(exprs, bs.Partition(bs.PartitionEquals(s)), bs.Partition(bs.PartitionIn(s, "x")), bs.Partition(bs.PartitionBetween("", s)), bs.Partition(bs.PartitionNotIn(s)), bs.Partition(bs.PartitionGreaterThan(s)))
+	}
+	var blocks []bs.DataBlockMetadata
+	for _, v := range nums {
+		for _, d := range []int64{-1, 0, 1} {
+			x := v + d
+			if (d > 0 && x < v) || (d < 0 && x > v) {
+				continue // wrapped
+			}
+			blocks = append(blocks, bs.DataBlockMetadata{PartitionID: "pa", MinMaxIndexes: map[string]bs.MinMaxIndex{"n": {Min: x, Max: x}}})
+		}
+	}
+	for _, s := range strs {
+		blocks = append(blocks, bs.DataBlockMetadata{PartitionID: s, MinMaxIndexes: map[string]bs.MinMaxIndex{"n": {Min: 0, Max: 0}}})
+	}
+	for ei := range exprs {
+		e := exprs[ei]
+		q := &bs.Query{Prefilter: &bs.QueryPrefilter{Expression: &e}}
+		b, err := json.Marshal(q)
+		var q2 bs.Query
+		if err == nil {
+			err = json.Unmarshal(b, &q2)
+		}
+		if err != nil {
+			res.Findings = append(res.Findings, fnd("c25-json", "C25 operands %s: JSON round trip failed: %v", b, err))
+			continue
+		}
+		if q2.Prefilter == nil || q2.Prefilter.Expression == nil || !reflect.DeepEqual(*q2.Prefilter.Expression, e) {
+			b2, _ := json.Marshal(&q2)
+			res.Findings = append(res.Findings, fnd("c25-json-operand-changed", "C25: prefilter %s decodes to a different expression: %s", b, b2))
+			continue
+		}
+		sep := false
+		for bi := range blocks {
+			res.Evals++
+			a, c := bs.EvaluateDataBlockMetadata(&blocks[bi], q.Prefilter), bs.EvaluateDataBlockMetadata(&blocks[bi], q2.Prefilter)
+			if a != c {
+				res.Findings = append(res.Findings, fnd("c25-json-results", "C25: prefilter %s evaluates to %v on block %v before and %v after a JSON round trip", b, a, blocks[bi].MinMaxIndexes, c))
+				break
+			}
+			if a != bs.EvaluateDataBlockMetadata(&blocks[0], q.Prefilter) {
+				sep = true
+			}
+		}
+		if sep {
+			res.Nontrivial++
+		}
+		if len(res.Findings) > 10 {
+			break
+		}
+	}
+	res.Sample = map[string]any{"expressions": len(exprs), "blocks": len(blocks)}
+	return res
 }
